@@ -1,6 +1,6 @@
 """Service: C07, C08 and the service part of C13 (Service.tla / ServiceTrace.tla / harness/cmd/service)."""
 import json, os
-from props import ModuleCheck, T
+from props import ModuleCheck, T, bundled
 
 # Finding F36 (a module-service call stored the sum of all owner tallies under the EMPTY owner) was repaired in
 # /repo d8189b9; FixF36 = TRUE in every Service cfg, the scenario is a regression and the random driver calls the
@@ -32,6 +32,8 @@ SERVICE_RND = T(
     [dict(n=40, len=40, procs=7, cfg="users=4,init=40,taxnum=1,taxden=4,slashnum=1,slashden=2"),
      dict(n=40, len=40, procs=7, cfg="users=5,init=100,taxnum=1,taxden=10,slashnum=1,slashden=10,maxtimeout=4,minmult=2,mindep=3,maxctx=6"),
      dict(n=40, len=30, procs=6, cfg="users=3,init=25,taxnum=1,taxden=2,slashnum=1,slashden=1,minmult=1,mindep=0,wait=3")])
+# multi-message transactions (runs of one signer's messages delivered as one real transaction)
+bundled(SERVICE_RND)
 # two fee denoms, exchange rate, module-service calls, owner-wide withdrawals
 SERVICE_RND["quick"].append(dict(n=5, len=30, procs=3, cfg=SERVICE_BTC_RND))
 SERVICE_RND["thorough"].append(dict(n=30, len=40, procs=6, cfg=SERVICE_BTC_RND))
@@ -66,7 +68,7 @@ SERVICE_DIAGNOSTIC = ["X07_RefundTiming", "X07_EnableDisable", "X07_MinDeposit",
 
 # histories recorded for the cross-module checks C11 / C12: plain transactions only (module-owned contexts
 # are driven by keeper calls from the harness' observation hook, which a byte-for-byte replay cannot repeat)
-RECORD = [dict(binary="service", n=T(3, 12), len=30, cfg="users=4,init=40,taxnum=1,taxden=4,slashnum=1,slashden=2,mods=0"),
+RECORD = [dict(binary="service", n=T(3, 12), len=30, cfg="users=4,init=40,taxnum=1,taxden=4,slashnum=1,slashden=2,mods=0,bundle=30"),
           # four end-blocks in which 4-6 contexts of one consumer fall due with funds for exactly two of them:
           # the order in which the end-blocker handles due contexts decides who is charged and who is paused
           dict(binary="service", mode="replay", **{"in": "scenarios/service_multictx_funds.ndjson"}, n=1, len=1,
